@@ -100,6 +100,7 @@ type c08File struct {
 	// file's rows are those of the two inputs back to back (the order of the merged row group's
 	// column chunks: range views of the lone stretches around the chunks of the overlapping one)
 	merged func(opts ...parquet.FileOption) (parquet.RowGroup, error)
+	mem    *c08Mem // mem-* kinds (c08_mem.go): the rows held by in-memory containers, no file
 }
 
 // c08Bad names the page whose checksum no longer matches and the global rows it holds.
@@ -355,7 +356,7 @@ func (f *c08File) open(sp c08Spec) (v *c08View, err error) {
 	}()
 	v = &c08View{col: sp.Col, loadIndex: func() {}, close: func() {}}
 	var pf *parquet.File
-	needFile := !strings.HasPrefix(sp.Kind, "buffer-")
+	needFile := !strings.HasPrefix(sp.Kind, "buffer-") && !strings.HasPrefix(sp.Kind, "mem-")
 	var opts []parquet.FileOption
 	if needFile {
 		opts = []parquet.FileOption{parquet.SkipPageIndex(sp.SkipIndex)}
@@ -452,6 +453,12 @@ func (f *c08File) open(sp c08Spec) (v *c08View, err error) {
 		v.close = func() { vr.Close() }
 	}
 	rgBase := func() { v.base, v.total = f.rgStart[sp.RG], f.rgStart[sp.RG+1]-f.rgStart[sp.RG] }
+	if strings.HasPrefix(sp.Kind, "mem-") { // in-memory containers: c08_mem.go
+		if err := f.openMem(sp, v, useRows, usePages, useValues); err != nil {
+			return nil, err
+		}
+		return v, nil
+	}
 	switch sp.Kind {
 	case "pages":
 		rgBase()
